@@ -448,9 +448,10 @@ PROPS["C01"] = dict(
 
 PROPS["C03"] = dict(
     title="Every transaction ends in bounded time, whatever the peer and the link do",
-    module="Cfdp.Props.C03s",
+    module="Cfdp.Props.C03b",
     namespace="Cfdp.Loop",
-    theorems=["C03_recv_never_stuck", "C03_send_never_stuck", "Cfdp.Recv.C03_recv_inactivity_limit"],
+    theorems=["C03_recv_never_stuck", "C03_send_never_stuck", "Cfdp.Recv.C03_recv_inactivity_limit",
+              "C03_send_bounded_work", "C03_send_drains", "C03_send_bounded_time"],
     engines=["recv", "send", "net"],
     design="§6 C03",
     technique="Lean 4 invariant proofs over all event histories of the receiver and sender models (a timer is always running or a PDU is queued) + limit-to-termination step theorems; bounded termination of the real state machines checked by a drain phase on the virtual clock",
@@ -461,6 +462,14 @@ PROPS["C03"] = dict(
                 "finite too (C03_send_never_stuck in Props/C03s.lean: invariant SA, ~25 preservation lemmas); when the inactivity limit is reached a cancelled transaction is abandoned = Terminated, any "
                 "other one is cancelled (default handler) or abandoned at once (C03_recv_inactivity_limit) - with C10_recv_cancel_ends / C10_send_cancel_ends (the positive-ACK "
                 "limit ends a cancelled transaction) and C17 (limits are reached after max x timeout) this bounds the lifetime under the default handlers. "
+                "The sender's bound is a theorem (Props/C03b.lean): take a send transaction after ANY history and leave it alone (peer silent for good, no user request). "
+                "A termination measure mu (phase rank, queued requests, bytes of the first pass still to send, the EOF flag and twice the expirations the positive-ACK and "
+                "inactivity counters can still count) drops with every transmission and every timer wake-up that finds an expired timer, so over every order and timing of "
+                "such iterations at most mu <= 8 + 8 x limit + queued requests + file length of them do anything (C03_send_bounded_work); the task loop as the drain phase "
+                "plays it leaves the Active state - terminated, or suspended by a handler - within mu iterations (C03_send_drains); and a second measure tau <= 2 + 4 x limit "
+                "that only timer wake-ups use up bounds the clock: the loop is over by now + tau x max(ACK timeout, inactivity timeout), however many iterations are "
+                "played (C03_send_bounded_time, using C17's start <= now invariant for the length of each sleep). Hypotheses: positive timeouts, segment size 1..65535, "
+                "limit faults not configured Ignore (C03's own exemption). "
                 "Checked on the real code only (not a theorem): the engines end every history with a drain phase - the peer silent for good from a random point of the "
                 "exchange on - that plays the task loop on the virtual clock (send while has_pdu_to_send, else sleep until_timeout and handle_timeout) and require Terminated "
                 "within 4 x (limit+1) x (sum of timeouts), never an infinite sleep (never_stuck) and never more than 5000 iterations (spinning). This drain found F33 and F34."),
@@ -470,7 +479,7 @@ PROPS["C03"] = dict(
           "phase. Oracles never_stuck, bounded. Non-trivial = a PDU was emitted or an indication raised."
           " net engine (300 quick / 3000 thorough two-party histories): one real SendTransaction and one real RecvTransaction joined by a simulated link that delivers only PDUs the other side emitted (in order, lost, duplicated, reordered, as stragglers), random schedules of transmissions, deliveries, timer expiries and user requests at both sides, then a loss-free fair phase on the shared virtual clock until both have ended; every call is answered in lockstep by the Lean sender and receiver models (ops net s / net r), the per-side oracles of the send / recv engines keep running, and two-party oracles are added: C02 recovers / same_outcome (acknowledged mode, losses confined to a zero-time phase, default handlers: both sides report success), C03 net_bounded / net_never_stuck, C04 sender_success_only_after_receiver, C01 two_party_file."),
     assumptions=["the runtime wakes the task when the computed sleep is over (tokio timers) and grants the link when asked (bounded channel with a live consumer)"],
-    unproved=["the numeric bound as a theorem (termination measure over NAK queue, counters and phases); checked by the drain oracle bounded"],
+    unproved=["the receiver's numeric bound as a theorem (termination measure over NAK queue, delayed windows, three counters and phases); the sender's is proved, the receiver's is checked by the drain oracle bounded"],
 )
 
 PROPS["C15"] = dict(
